@@ -44,6 +44,7 @@ LEVEL = {
 LEVEL["decided"] += ' (R07.7) subclasses of the borrowed handle override nothing but aclose/__repr__ (the tables hold for them unchanged).'
 LEVEL["decided"] += " R07.3 is evaluated on the handle's public aclose for underlying iterators with both, none or just one of asend / athrow."
 LEVEL["decided"] += " (R07.8) no library operation calls athrow / asend on an iterator it was handed (a borrowed handle forwards both to the owner's iterator)."
+LEVEL["decided"] += ' (R07.10) scoped_iter hands out its iterator bare only when the iterator itself has no aclose (R08.4, shared).'
 LEVEL["decided"] += ' (R07.9) no library code looks through a borrowed handle: the field holding the underlying iterator is read on self only.'
 
 BORROW_CLASSES = ["asynctools._BorrowedAsyncIterator", "asynctools._ScopedAsyncIterator"]
@@ -69,6 +70,13 @@ def run(ctx) -> None:
     r07_7(ctx)
     r07_8(ctx)
     r07_9(ctx)
+    # the handle of ``scoped_iter`` is documented as borrowed: every iterator that can be closed is put behind the scoped
+    # (borrowed) wrapper, the bare iterator is handed out only when it has no aclose at all
+    from . import c08 as _c08
+    from .common import Relabel as _Rel
+    ctx.rule("R07.10", "scoped_iter hands out the bare iterator only if that iterator - not the iterable it was made from - has no "
+                       "aclose; otherwise the borrowed wrapper (R08.4, shared)")
+    _c08.r08_4(_Rel(ctx, "R07.10"))
     positive_example(ctx)
     ctx.floor("underlying_uses", 5)
     ctx.floor("positive_example_fired", 1)
